@@ -238,7 +238,7 @@ Definition src2_condition_ok (now : pyval) (to_secs : pyval -> pyval) (parse : p
    | BErr => PErr
    end).
 
-(* saml2/response.py:AuthnResponse._bearer_confirmed, lines 684-721 *)
+(* saml2/response.py:AuthnResponse._bearer_confirmed, lines 691-728 *)
 Definition src2_bearer_confirmed (now : pyval) (to_secs : pyval -> pyval) (parse : pyval -> pyval) (gmtime : pyval -> pyval) (valid_address : pyval -> pyval) (v_self : pyval) (v_data : pyval) : pyval :=
   (match p2_branch (p2_not v_data) with
    | BTrue => (PList [(PBool false); v_self])
@@ -300,7 +300,7 @@ Definition src2_bearer_confirmed (now : pyval) (to_secs : pyval -> pyval) (parse
    | BErr => PErr
    end).
 
-(* saml2/response.py:AuthnResponse.session_info, lines 1096-1126 *)
+(* saml2/response.py:AuthnResponse.session_info, lines 1103-1133 *)
 Definition src2_session_info (issuer : pyval -> pyval) (authz_decision_info : pyval -> pyval) (authn_info : pyval -> pyval) (v_self : pyval) : pyval :=
   let v_nooa := PErr in
   let v_authn_statement := PErr in
